@@ -100,14 +100,17 @@ def run(ctx: vlib.Ctx):
         "family 'multimod' spreads a schema over several user packages: same-named classes (incl. names living in the builder's namespace: Field, "
         "Alias, Dialect, Sentinel, ...) in different modules as fields of one holder; a generic base with a bare / wrapped TypeVar field whose "
         "argument comes from a foreign top-level package mentioned nowhere else; SerializableType / SerializationStrategy with use_annotations whose "
-        "string annotations name user classes bare or through user module objects called types / enum / typing / math / ... ; x import style x "
+        "string annotations name user classes bare or through user module objects called types / enum / typing / math / ... ; ONE generic dataclass "
+        "(one or two TypeVars) specialised with the same-named classes of two modules, in both argument orders, for two fields of one holder or two "
+        "holders compiled one after the other, at container depth <= 3; x import style x "
         "mixin / codec; every such schema must build, round-trip exactly and bind the annotated classes; "
         "family 'defaults' gives omit_default classes (Config / Config.dialect / call-time dialect / codec default_dialect) default values the "
         "generated text has to mention: tuples, 1-tuples, nested, variable and optional tuples holding Paths, IP addresses, UUID, Decimal, Fraction, "
         "dates, Enum and Flag members, arbitrary objects, named tuples, dataclass instances, frozensets, lists, dicts, NaN, via default and "
         "default_factory, mixin and codec, module and function scope (exact round trip demanded); "
         "family 'identity' instantiates the adversarial shapes the property names (same-qualname local classes, clean_id collisions, functional "
-        "Enum/NamedTuple/make_dataclass in a function, bogus __module__, re-bound names, MappingProxyType, defaultdict of a local class, class and "
+        "Enum/NamedTuple/make_dataclass in a function, bogus __module__, re-bound names, MappingProxyType, defaultdict of a local class, pairs of local "
+        "(or nested local) classes whose distinct names differ only in non-ASCII letters, class and "
         "module names shadowing names used by generated code) x class kind x position x entry point. Every schema is built under capture, every "
         "entry point is run on a valid value and on wire values with one position replaced by junk / deleted (error paths). "
         "distinct = distinct generated program texts (modulo uuid suffixes) + distinct schema tag sets; quantification over schemas is by sampling, "
